@@ -203,6 +203,7 @@ func (k *c01K) rangeFunc() {
 	for _, c := range cores {
 		k.body(fam, c.name, its, "", c.core, "")
 	}
+	k.add(fam, "minimal: defer in the body of a range-over-func loop", "func one§(yield func(int) bool) {\n\tyield(1)\n}\nfunc f§(a, b int) (r int) {\n\tfor i := range one§ {\n\t\tdefer obs(i + a)\n\t}\n\treturn b\n}\n")
 	// return from inside the body (not wrappable in a closure: uses return)
 	k.add(fam, "return from body", its+"func f§(a, b int) (r int) {\n\tfor i := range it§(3) {\n\t\tif i == a {\n\t\t\treturn i*7 + 1\n\t\t}\n\t\tobs(i)\n\t}\n\treturn -1\n}\n")
 	k.add(fam, "return from nested bodies, two results", its+"func f§(a, b int) (int, string) {\n\tfor i := range it§(3) {\n\t\tfor j, s := range it2§ {\n\t\t\tif i == a && j == b {\n\t\t\t\treturn i*10 + j, s\n\t\t\t}\n\t\t}\n\t}\n\treturn -1, \"none\"\n}\n")
